@@ -431,6 +431,66 @@ example : ((openV4 cfg1 {}).toOption.map
     = some (.ok { ts := [234, 236], freqs := [990, 1010], dumpPos := [3, 4], chanPos := [1, 3] }) := by
   decide +kernel
 
+/-- The mirror model of "open with preselect, then select" produces exactly the documented closed
+    forms (`specObserve`, the reference the harness compares the implementation with), under the
+    same proviso on the workaround decision. -/
+theorem c17_meets_spec_partial (c : Cfg) (p : Preselect) (P : Opened) (hF : 0 < c.F)
+    (h12 : c.d1 < c.d2) (h23 : c.d2 < c.d3) (hP : openV4 c p = .ok P)
+    (hside : c.cbf = none ∨
+      (rawT c (selRange c.T p.dumps).1 + c.timeOffset < fixDate c.d1 c.d2 c.d3 c.cmc2 c.cbf4k
+        ↔ rawT c 0 + c.timeOffset < fixDate c.d1 c.d2 c.d3 c.cmc2 c.cbf4k))
+    (sd sc : Option Ix) :
+    (do let o ← P.observe sd sc; pure (o, P.timeOffset, P.startT, P.endT)) = specObserve c p sd sc := by
+  obtain ⟨hv, _, _, _, _, hdb, hcb, hoff, hts, hs, he, hn, _, _, _⟩ := openV4_spec c p P hF hP
+  obtain ⟨_, _, hfreq, _, _⟩ := c17_freqs c p P hF hP
+  have hoff' : P.timeOffset = c.timeOffset -
+      (if decide (rawT c 0 + c.timeOffset < fixDate c.d1 c.d2 c.d3 c.cmc2 c.cbf4k) = true
+        then c.cbf.getD 0 else 0) := by
+    rw [hoff, corr_eq c h12 h23]
+    rcases hside with hn' | hiff
+    · simp [hn']
+    · by_cases hb : rawT c 0 + c.timeOffset < fixDate c.d1 c.d2 c.d3 c.cmc2 c.cbf4k
+      · simp [hb, hiff.mpr hb]
+      · have : ¬ rawT c (selRange c.T p.dumps).1 + c.timeOffset < fixDate c.d1 c.d2 c.d3 c.cmc2 c.cbf4k :=
+          fun h => hb (hiff.mp h)
+        simp [hb, this]
+  generalize hlo : (selRange c.T p.dumps).1 = lo at *
+  generalize hhi : (selRange c.T p.dumps).2 = hi at *
+  generalize hclo : (selRange c.F p.channels).1 = clo at *
+  generalize hchi : (selRange c.F p.channels).2 = chi at *
+  have hlen : P.ts.length = hi - lo := by rw [hts]; simp
+  have hsel1 : selRange c.T p.dumps = (lo, hi) := by rw [← hlo, ← hhi]
+  have hsel2 : selRange c.F p.channels = (clo, chi) := by rw [← hclo, ← hchi]
+  simp only [specObserve, Opened.observe, hv, hsel1, hsel2, hlen, hn, bind, Except.bind, pure, Except.pure]
+  cases hkd : keepPositions (hi - lo) sd with
+  | error e => rfl
+  | ok kd =>
+    cases hkc : keepPositions (chi - clo) sc with
+    | error e => rfl
+    | ok kc =>
+      obtain ⟨hkdlt, _⟩ := keepPositions_lt _ _ _ hkd
+      obtain ⟨hkclt, _⟩ := keepPositions_lt _ _ _ hkc
+      simp only [Except.ok.injEq, Prod.mk.injEq, Obs.mk.injEq]
+      refine ⟨⟨?_, ?_, ?_, ?_⟩, hoff', by rw [hs, hoff'], by rw [he, hoff']⟩
+      · apply List.map_congr_left
+        intro i hi'
+        rw [hts, getD_map_range' _ _ _ _ _ (hkdlt i hi'), hoff']
+      · apply List.map_congr_left
+        intro k _
+        exact hfreq k
+      · apply List.map_congr_left
+        intro i hi'
+        rw [hdb, getD_range' _ _ _ _ (hkdlt i hi')]
+      · apply List.map_congr_left
+        intro k hk'
+        rw [hcb, getD_range' _ _ _ _ (hkclt k hk')]
+
+example : (specObserve cfg1 { dumps := some (.slice (some 2) (some 5) none),
+                              channels := some (.slice (some 1) none none) }
+            (some (.slice (some 1) none none)) (some (.mask [true, false, true])))
+    = .ok ({ ts := [234, 236], freqs := [990, 1010], dumpPos := [3, 4], chanPos := [1, 3] }, 0, 231, 237) := by
+  decide +kernel
+
 /-- The unconditional equivalence is false (1): a capture that straddles a fix date.  Dumps 0, 1
     are before `d1`, dump 2 is after; the whole data set is corrected by half a second, the
     preselected one is not. -/
